@@ -111,6 +111,10 @@ def as_verdict(desc):
     pf = aerostruct_problem([sf], fl, compressible=desc["compressible"])
     pf.run_model()
     A = "AS_point_0."
+    if float(pf.get_val(A + "CL")[0]) < 1e-3:
+        from oasv.core import Discard
+
+        raise Discard("non-lifting aerostructural point (Breguet fuel burn, cg, CM undefined at CL <= 0)")
     rt = 1e-7
     d = pf.get_val(A + "coupled.wing.disp")
     dm = d[::-1] * np.array([1.0, -1.0, 1.0, -1.0, 1.0, -1.0])
